@@ -112,6 +112,11 @@ func (t *Tokenizer) Load(r io.Reader, handler oj.TokenHandler) (err error) {
 	}()
 	var cnt int
 	cnt, err = r.Read(buf)
+	for cnt < 4 && err == nil && (cnt == 0 || buf[0] == 0xEF) { // a BOM may be split across reads
+		var n int
+		n, err = r.Read(buf[cnt:])
+		cnt += n
+	}
 	buf = buf[:cnt]
 	t.mode = valueMap
 	if err != nil {
